@@ -115,7 +115,12 @@ def make_device(rng: random.Random, *, holes=0, terminals=2, max_edge_length=Non
         pp = [(-W / 4, -H / 4), (W / 4, H / 4)] if probe_points else None
         dev = tdgl.Device("dev", layer=layer, film=film, holes=hs, terminals=ts, probe_points=pp,
                           length_units=length_units)
-        mel = max_edge_length if max_edge_length is not None else xi * scale * rng.choice([1.2, 1.6, 2.0])
+        mel = max_edge_length * scale if max_edge_length is not None else xi * scale * rng.choice([1.2, 1.6, 2.0])
+        # generate_mesh keeps the outline vertices fixed and refines until every edge is <= max_edge_length: an outline
+        # segment longer than that (even by rounding) makes its refinement loop run for ever - not exercised here
+        longest = max(float(np.max(np.linalg.norm(np.diff(p_.points, axis=0), axis=1))) for p_ in [film] + hs)
+        if longest > 0.97 * mel:
+            continue
         try:
             dev.make_mesh(max_edge_length=mel, smooth=smooth)
         except Exception:
